@@ -49,3 +49,17 @@ Theorem C01_decides_the_language : forall g sts tbl w,
     (~ derives g w -> tree_run g tbl w fuel' = Reject).
 Proof. exact decides_language_checked. Qed.
 Print Assumptions C01_decides_the_language.
+
+(* THE GENERATOR AGAIN, now with termination: for every productive grammar expressible in the DSL whose generated table
+   is conflict-free (and without error rules), the generated parser DECIDES the grammar's language. *)
+Require Import Ctpg.Proofs.GenTermChecks.
+Theorem C01_generated_parsers_decide_the_language : forall rg g lim sts tbl,
+  analyze rg = Some g -> grammar_wf g = true -> gen_with g lim = inl (sts, tbl) ->
+  conflict_free g (length sts) tbl = true -> accept_clean g sts = true -> productiveb g = true ->
+  no_error_symbol g tbl = true ->
+  forall w, tokens_ok g w ->
+  exists fuel, forall fuel', fuel <= fuel' ->
+    (derives g w -> exists t, tree_run g tbl w fuel' = Accept t /\ derives_tree g t w) /\
+    (~ derives g w -> tree_run g tbl w fuel' = Reject).
+Proof. exact gen_decides_language_analyze. Qed.
+Print Assumptions C01_generated_parsers_decide_the_language.
